@@ -1,7 +1,17 @@
 import Proofs.C05
+import Proofs.TieAccept
+import Proofs.TieBuild
 #print axioms PV.Proofs.C05.kt_stays_zero
 #print axioms PV.Proofs.C05.zero_temp_accept
 #print axioms PV.Proofs.C05.C05_monotone
 #print axioms PV.Proofs.C05.C05_result_score
 #print axioms PV.Proofs.C05.build_keeps_kt_start
 #print axioms PV.Proofs.C05.not_positive_temperature_is_hill_climb
+#print axioms PV.Proofs.Tie.declared_translated_accept
+#print axioms PV.Proofs.Tie.energy_surface_tie
+#print axioms PV.Proofs.Tie.test_acceptance_tie
+#print axioms PV.Proofs.Tie.accept_score_tie
+#print axioms PV.Proofs.Tie.declared_translated_build
+#print axioms PV.Proofs.Tie.build_inner_tie
+#print axioms PV.Proofs.Tie.build_kt_ratio_tie
+#print axioms PV.Proofs.Tie.build_loops_tie
